@@ -30,6 +30,10 @@ Subset (everything else raises Untranslatable):
     called for their effect on one argument (`result=`), loops over declared object lists whose method calls become
     function parameters (`objlists=`, `objects=`), one component of a returned tuple (`returns_index=`), dead-statement
     elimination with respect to that result (`slice=True`).
+  * `dialect='list'` (harness/translate_list.py, read its docstring): numpy 1-D arrays as Lean `List`s, typed
+    translation (scalars, indices, arrays, index arrays, masks, 2-D row arrays, tuples, None) against the prelude
+    lean/TaurexModel/Gen/Prelude.lean (`Np.*`), partial evaluation of `is None` / `hasattr(x, '__len__')` tests under the
+    declared calling pattern, loops over `enumerate(zip(...))` with `continue`, methods that assign attributes (`state=`).
 The translator is part of the trusted base; it is validated on every run by the tie theorems (the regenerated text must be
 *provably equal* to a model that the correspondence check runs against the real code on the same inputs)."""
 import ast
@@ -134,7 +138,8 @@ class Fn:
     def lean_ty(self, kind):
         return {'s': 'α', 'elem': 'α', 'nat': 'Nat', 'arr': 'Nat → α', 'arr2': 'Nat → Nat → α',
                 'natpair': 'Nat × Nat', 'bool': 'Bool', 'pair': 'α × α', 'opt': 'Option α', 'optarr': 'Option (Nat → α)',
-                'rows': 'List (Nat → α)', 'slist': 'List α', 'optrows': 'Option (List (Nat → α))'}[kind]
+                'rows': 'List (Nat → α)', 'slist': 'List α', 'optrows': 'Option (List (Nat → α))',
+                'optarr2': 'Option (Nat → Nat → α)'}[kind]
 
     def var(self, name):
         if name in self.attrs:                            # a state attribute ('self.x') carried like a local variable
